@@ -6,6 +6,7 @@ package main
 
 import (
 	"bufio"
+	"os"
 	"bytes"
 	"crypto/sha256"
 	"encoding/hex"
@@ -17,6 +18,8 @@ import (
 	"sync"
 	"time"
 )
+
+var debugBackend = os.Getenv("C02_DEBUG") != ""
 
 type hdr [2]string
 
@@ -179,8 +182,10 @@ func dialUser(server, localIP string) (*userConn, error) {
 	if err != nil {
 		return nil, err
 	}
-	return &userConn{c: c, br: bufio.NewReaderSize(c, 64<<10)}, nil
+	return newUserConn(c), nil
 }
+
+func newUserConn(c net.Conn) *userConn { return &userConn{c: c, br: bufio.NewReaderSize(c, 64<<10)} }
 
 func (u *userConn) send(r *userReq) error {
 	w := bufio.NewWriterSize(u.c, 64<<10)
@@ -287,10 +292,14 @@ type backends struct {
 	lns    []net.Listener
 	nconn  int
 	closed chan struct{}
+
+	tunDown  []byte      // bytes the backend sends after accepting an upgrade / CONNECT
+	tunUpLen int         // bytes it expects from the user
+	tunGot   chan []byte // what it received
 }
 
 func newBackends() *backends {
-	return &backends{mode: map[int]string{}, seen: make(chan *seenReq, 64), closed: make(chan struct{})}
+	return &backends{mode: map[int]string{}, seen: make(chan *seenReq, 64), closed: make(chan struct{}), tunGot: make(chan []byte, 4)}
 }
 
 func (b *backends) script(s *scripted) {
@@ -346,14 +355,23 @@ func (b *backends) serveRW(c io.ReadWriteCloser, raw net.Conn, route, id int) {
 	for {
 		h, err := readHead(br)
 		if err != nil {
+			if debugBackend && err != io.EOF {
+				fmt.Fprintf(os.Stderr, "BACKEND conn %d readHead: %v\n", id, err)
+			}
 			return
 		}
 		parts := strings.SplitN(h.start, " ", 3)
 		if len(parts) < 3 {
+			if debugBackend {
+				fmt.Fprintf(os.Stderr, "BACKEND conn %d bad start line %q\n", id, h.start)
+			}
 			return
 		}
 		body, _, err := readBody(br, h, false, false)
 		if err != nil {
+			if debugBackend {
+				fmt.Fprintf(os.Stderr, "BACKEND conn %d readBody: %v (%s)\n", id, err, h.start)
+			}
 			return
 		}
 		b.mu.Lock()
@@ -363,6 +381,20 @@ func (b *backends) serveRW(c io.ReadWriteCloser, raw net.Conn, route, id int) {
 		select {
 		case b.seen <- &seenReq{route: route, method: parts[0], target: parts[1], hdrs: h.hdrs, body: body, conn: id}:
 		default:
+		}
+		// protocol upgrade / CONNECT: accept, then echo bytes (the tunnel under test)
+		if up, ok := h.get("Upgrade"); (ok && mode != "stall") || parts[0] == "CONNECT" {
+			w := bufio.NewWriter(c)
+			if parts[0] == "CONNECT" {
+				w.WriteString("HTTP/1.1 200 Connection established\r\n\r\n")
+			} else {
+				fmt.Fprintf(w, "HTTP/1.1 101 Switching Protocols\r\nConnection: Upgrade\r\nUpgrade: %s\r\nX-Accept: c02\r\n\r\n", up)
+			}
+			if w.Flush() != nil {
+				return
+			}
+			b.tunnel(c, br)
+			return
 		}
 		switch mode {
 		case "stall":
@@ -392,10 +424,8 @@ func (b *backends) serveRW(c io.ReadWriteCloser, raw net.Conn, route, id int) {
 			w.WriteString("Transfer-Encoding: chunked\r\n\r\n")
 			writeChunked(w, s.body, s.chunks)
 		case s.framing == "close":
-			// delimited by closing the connection (no Content-Length, no Transfer-Encoding).  No
-			// "Connection: close" line: net/http's Transport deletes every Connection value when one
-			// of them is "close", which would hide the tokens a scripted Connection header lists.
-			w.WriteString("\r\n")
+			// delimited by closing the connection, announced as real servers do
+			w.WriteString("Connection: close\r\n\r\n")
 			w.Write(s.body)
 		default:
 			fmt.Fprintf(w, "Content-Length: %d\r\n\r\n", len(s.body))
@@ -408,6 +438,46 @@ func (b *backends) serveRW(c io.ReadWriteCloser, raw net.Conn, route, id int) {
 			return
 		}
 	}
+}
+
+// tunnel: the backend end of an upgraded connection.  It records a digest of everything it
+// receives and sends its own byte stream (tunDown) to the user; both ends stop on EOF.
+func (b *backends) tunnel(c io.ReadWriteCloser, br *bufio.Reader) {
+	b.mu.Lock()
+	down := b.tunDown
+	b.mu.Unlock()
+	done := make(chan struct{})
+	go func() {
+		defer close(done)
+		for i := 0; i < len(down); i += 8192 {
+			j := i + 8192
+			if j > len(down) {
+				j = len(down)
+			}
+			if _, err := c.Write(down[i:j]); err != nil {
+				return
+			}
+		}
+	}()
+	var got bytes.Buffer
+	buf := make([]byte, 32<<10)
+	for {
+		n, err := br.Read(buf)
+		got.Write(buf[:n])
+		b.mu.Lock()
+		want := b.tunUpLen
+		b.mu.Unlock()
+		if err != nil || got.Len() >= want {
+			break
+		}
+	}
+	<-done
+	select {
+	case b.tunGot <- got.Bytes():
+	default:
+	}
+	// keep the connection until the user hangs up
+	io.Copy(io.Discard, br)
 }
 
 func (b *backends) close() {
